@@ -115,7 +115,9 @@ class cpr {
                 const backend_params &bprm = backend_params()
            ) : prm(prm), n(backend::rows(K))
         {
-            init(std::make_shared<build_matrix>(K), bprm,
+            auto K_ptr = std::make_shared<build_matrix>(K);
+            backend::sort_rows(*K_ptr);
+            init(K_ptr, bprm,
                     std::integral_constant<bool, math::static_rows<value_type>::value == 1>());
         }
 
@@ -163,6 +165,7 @@ class cpr {
               )
         {
             auto K_ptr = std::make_shared<build_matrix>(K);
+            backend::sort_rows(*K_ptr);
             // Update global preconditioner
             S = std::make_shared<SPrecond>(K_ptr, prm.sprecond, bprm);
             if(update_transfer_ops){
